@@ -83,6 +83,11 @@ func (r *requestContext) Finalize(upstream rule.Backend) error {
 	logger := zerolog.Ctx(r.AppContext())
 
 	if err := r.PipelineError(); err != nil {
+		// a challenge set by an error handler belongs to the error response
+		if challenge := r.UpstreamHeaders().Values("WWW-Authenticate"); len(challenge) != 0 {
+			r.rw.Header()["WWW-Authenticate"] = challenge
+		}
+
 		return err
 	}
 
